@@ -252,6 +252,26 @@ fn walk(m: &[u8]) -> Result<Walk, String> {
     Ok(Walk { sec_end, recs, end: p })
 }
 
+/// Do all owner names of the answer and authority sections decompress? The
+/// TSIG layer does not need them, so a verifier may or may not look; one that
+/// does answers FORMERR before it gets to the MAC.
+fn names_decompress(m: &[u8]) -> bool {
+    match walk(m) {
+        Err(_) => false,
+        Ok(w) => w.recs.iter().all(|r| {
+            let mut ptrs = Vec::new();
+            wire::read_name(m, r.start, &mut ptrs).is_ok()
+        }),
+    }
+}
+
+fn allow_formerr_for_bad_names(mut e: Expect, m: &[u8]) -> Expect {
+    if e.primary != Cls::Accept && e.primary != Cls::FormErr && !e.alts.contains(&Cls::FormErr) && !names_decompress(m) {
+        e.alts.push(Cls::FormErr);
+    }
+    e
+}
+
 #[derive(Clone, Debug)]
 struct RefTsig {
     start: usize,
@@ -540,6 +560,11 @@ fn verify_found(
 /// RFC 8945 5.2 server side. Returns the verdict and, on accept, the index
 /// of the key, the wire MAC and the stripped message.
 fn ref_server(store: &[RefKey], m: &[u8], now: u64) -> (Expect, Option<(usize, Vec<u8>, Vec<u8>)>) {
+    let (e, acc) = ref_server_inner(store, m, now);
+    (allow_formerr_for_bad_names(e, m), acc)
+}
+
+fn ref_server_inner(store: &[RefKey], m: &[u8], now: u64) -> (Expect, Option<(usize, Vec<u8>, Vec<u8>)>) {
     let t = match ref_locate(m) {
         Locate::Missing => return (Expect::new(Cls::Unsigned, "no-tsig"), None),
         Locate::Position(c) => return (Expect::new(Cls::FormErr, c), None),
@@ -587,6 +612,11 @@ impl RefClient {
     }
 
     fn expect(&self, m: &[u8], now: u64) -> (Expect, Commit) {
+        let (e, c) = self.expect_inner(m, now);
+        (allow_formerr_for_bad_names(e, m), c)
+    }
+
+    fn expect_inner(&self, m: &[u8], now: u64) -> (Expect, Commit) {
         let t = match ref_locate(m) {
             Locate::Missing => {
                 if !self.seq || self.first {
@@ -2555,7 +2585,7 @@ fn main() {
         }),
         &[
             "the oracle is an RFC 8945 signer/verifier written in the harness on ring::hmac; ring's HMAC itself is trusted (known-answer self-test)",
-            "message parsing disagreements are not TSIG verdicts: where the reference cannot walk a mutated message, FORMERR, BADSIG and BADKEY are all accepted as rejection",
+            "message parsing disagreements are not TSIG verdicts: where the reference cannot walk a mutated message, FORMERR, BADSIG and BADKEY are all accepted as rejection; where an owner name of the answer/authority section does not decompress (the TSIG layer need not look at it), FORMERR is accepted next to the TSIG verdict",
             "client side: RFC 8945 assigns no wire error to a client; for MAC-length faults FormErr, BadTrunc and BadSig are all accepted, for NOTAUTH+BADKEY/BADSIG any rejection",
             "two simultaneous faults where one is the local truncation policy: either error accepted (the library checks the policy first, RFC 8945 5.2 last)",
             "'returns the message to its pre-signing octets' is read as: the message delimited by its own section counts equals the pre-signing octets; the library cannot shrink the octets type and leaves the TSIG octets behind the end (counted in counters)",
